@@ -695,12 +695,15 @@ def kernel_value_table(ctx, clause: str, what: str):
         return list(seq[:k + 1]) if inc else list(seq[:k])
     bad, n_rows = None, 0
     try:
-        for costs in ((Fr(1), Fr(1), Fr(1)), (Fr(1), Fr(2), Fr(3)), (Fr(2), Fr(2), Fr(2)), (Fr(1, 2), Fr(1), Fr(3, 2))):
+        # (the last triple: costs larger than any finite stand-in for 'no such transition' could be chosen with)
+        for costs in ((Fr(1), Fr(1), Fr(1)), (Fr(1), Fr(2), Fr(3)), (Fr(2), Fr(2), Fr(2)), (Fr(1, 2), Fr(1), Fr(3, 2)), (Fr(10**9), Fr(3 * 10**9), Fr(10**9 + 1))):
             for eos in (EOS, None):
                 for inc in ((True, False) if eos is not None else (False,)):
                     for bf in (False, True):
                         for norm in (False, True):
                             for prefix in ((False, True) if what == "distance" else (False,)):
+                                if costs[0] > 1000 and (bf or norm):
+                                    continue
                                 holder = {}
 
                                 def leaf(x, env):
@@ -709,6 +712,11 @@ def kernel_value_table(ctx, clause: str, what: str):
                                         b_ = dict(zip(("tok", "eos", "dim"), x.args))
                                         b_.update({k.arg: k.value for k in x.keywords})
                                         return first_eos(it_.eval(b_["tok"], env), it_.eval(b_["eos"], env), int(it_.eval(b_["dim"], env)))
+                                    if isinstance(x, ast.Attribute) and isinstance(x.value, ast.Name) and x.value.id == "config":
+                                        # a library constant, folded from its definition (a finite stand-in for infinity is finite here)
+                                        from sa.constfold import fold_constant
+                                        v_ = fold_constant(pkg.module("config").tree, x.attr)
+                                        return Fr(v_) if isinstance(v_, float) and v_ == v_ and abs(v_) != float("inf") else v_
                                     return None
                                 it = Interp(leaf=leaf, tensors=True)
                                 holder["it"] = it
@@ -750,7 +758,9 @@ def kernel_value_table(ctx, clause: str, what: str):
                                     if not ok and bad is None:
                                         bad = (costs, eos, inc, bf, norm, prefix, shown[0], shown[1], (r_, h_))
     except NotEvaluable as e:
-        return False  # (outside the interpreted fragment: the other clauses of the property stand alone)
+        # the core clause of the property: a kernel outside the interpreted fragment is reported as undecided, never passed over
+        col.undecided(f"{where}: the kernel is outside the interpreted fragment ({e}); its values are not decided")
+        return False
     col.floor(f"kernel_table_rows[{what}]", n_rows, 40)
 
     def _s(v):
